@@ -10,7 +10,7 @@
      base64 0.22 general_purpose::STANDARD (canonical padding required, trailing bits rejected),
      core::str::from_utf8, rust_decimal 1.37.1 from_str / from_scientific / Display,
      uuid 1.16 parse_str / hyphenated Display, jiff 0.2.5 Timestamp parse (a defined sub-grammar) / Display.
-   JSON text <-> tree (serde_json) and regex validity (regex crate) are parameters.
+   JSON text <-> tree (serde_json) and regex validity (Regex::new(text).is_ok(), regex crate) are parameters.
    The filter AST `cfilter` is local to this file: TkModel.Filter.tfilter carries regex *ids* and
    uuid text, the codec needs the pattern text and the parsed values. *)
 From TkModel Require Import Base Dec.
@@ -587,13 +587,15 @@ Definition map_opt {A B} (f : A -> option B) : list A -> option (list B) :=
     end.
 
 Section Deser.
-  (* Regex::new on the text that is actually compiled *)
+  (* Regex::new(text).is_ok() *)
   Variable rx_ok : list N -> bool.
 
-  (* full_haystack_matcher::deserialize: a JSON string, compiled as ^(?:s)$ *)
+  (* full_haystack_matcher::deserialize: a JSON string; new_full_haystack_regex compiles the pattern
+     on its own first (`Regex::new(re)?`, since commit f40ad68; before, only the wrapped text was
+     compiled: finding F15, first half) and then as ^(?:re)$ *)
   Definition de_regex (j : jv) : option (list N) :=
     match j with
-    | JStr p => if rx_ok (wrap_s p) then Some (wrap_s p) else None
+    | JStr p => if rx_ok p && rx_ok (wrap_s p) then Some (wrap_s p) else None
     | _ => None
     end.
   (* Decimal: deserialize_any(DecimalVisitor): a string, a number (its text), or the private
